@@ -20,11 +20,11 @@ impl Scenario for C17 {
         }
     }
     fn rule(&self) -> String {
-        "each run is one thread episode: 2..16 real OS threads share the same key objects (local, secret, public, PKE pair; Arc of the very same objects, plus private clones, clones handed to and dropped by other threads; keys are created on one OS thread, used on others and dropped on yet another) and run scripts of 3-40 operations (encrypt, sign, decrypt/verify of own, shared and corrupted tokens, PIE/PBKW/PKE wrap and unwrap with right and wrong secrets, id, expose, clone, hand-off, seal under a failing RNG, parse garbage); a baton admits one thread at a time and a seeded scheduler (uniform random, PCT-style priorities with <= 3 change points, round robin) picks the next thread at every operation boundary; oracle: every result is bit-identical to the same script run alone on fresh key copies and to the script with its failing operations removed, shared key bytes and a probe decrypt/verify are unchanged afterwards, nothing panics. distinct = distinct (backend, thread count, schedule hash) triples".into()
+        "each run is one thread episode: 2..16 real OS threads share the same key objects (local, secret, public, PKE pair; Arc of the very same objects, plus private clones, clones handed to and dropped by other threads; keys are created on one OS thread, used on others and dropped on yet another) and run scripts of 3-40 operations (encrypt, sign, decrypt/verify of own, shared and corrupted tokens, PIE/PBKW/PKE wrap and unwrap with right and wrong secrets, id, expose, clone, hand-off, seal under a failing RNG, parse garbage); a baton admits one thread at a time and a seeded scheduler (uniform random, PCT-style priorities with <= 3 change points, round robin) picks the next thread at every operation boundary and, in two thirds of the paseto-v3-aws-lc episodes, also at every call from the Rust wrapper into aws-lc (28 link-time wrapped entry points: interleavings between any two FFI calls of one operation; shared key objects are unused when the episode starts); oracle: every result is bit-identical to the same script run alone on fresh key copies and to the script with its failing operations removed, shared key bytes and a probe decrypt/verify are unchanged afterwards, nothing panics. distinct = distinct (backend, thread count, schedule hash) triples".into()
     }
     fn assumptions(&self) -> Vec<String> {
         vec![
-            "interleavings are at whole-operation granularity: preemption inside an aws-lc or libsodium call is out of reach of a scheduler that admits one thread at a time (see DESIGN.md, C17)".into(),
+            "interleavings are at whole-operation granularity, for paseto-v3-aws-lc additionally at every FFI call; preemption inside a single aws-lc or libsodium call, and between Rust statements that make no FFI call, is out of reach of a scheduler that admits one thread at a time (see DESIGN.md, C17)".into(),
             "all randomness is a per-(thread, operation) seeded stream, which is what makes bit-identity a sound oracle".into(),
         ]
     }
